@@ -219,13 +219,39 @@ pub fn drive(a: &Args) -> i32 {
             let shared = Arc::new(s);
             let per = (ops as usize * 2 / threads).max(10);
             let mut all: Vec<(i64, Value)> = Vec::new();
+            // first-touch bursts: all threads, released together by a barrier, present the SAME never-seen key
+            let bursts = 300usize;
+            // spin barrier: threads leave it within nanoseconds of each other (a futex barrier wakes them one by one)
+            let barrier = Arc::new(std::sync::atomic::AtomicUsize::new(0));
+            let is_eng = matches!(shared.lim, Lim::Eng(_));
             std::thread::scope(|sc| {
                 let mut hs = Vec::new();
                 for ti in 0..threads {
                     let sh = shared.clone();
+                    let bar = barrier.clone();
                     let mut r = common::rng(5000 + seg * 64 + ti as u64);
                     hs.push(sc.spawn(move || {
                         let mut log: Vec<(i64, Value)> = Vec::new();
+                        for b in 0..bursts {
+                            let tg = if is_eng {
+                                Target::Key(2_000_000 + b as u32)
+                            } else if b % 2 == 0 {
+                                Target::Ip(IpAddr::V6(std::net::Ipv6Addr::new(0x2001, 0xdb8, (seg % 60000) as u16, b as u16, 0, 0, 0, 1)))
+                            } else {
+                                Target::Ip(IpAddr::V4(std::net::Ipv4Addr::new(10, (seg % 250) as u8, b as u8, 1)))
+                            };
+                            bar.fetch_add(1, std::sync::atomic::Ordering::SeqCst);
+                            while bar.load(std::sync::atomic::Ordering::SeqCst) < threads * (b + 1) {
+                                std::hint::spin_loop();
+                            }
+                            let tb = clock.before();
+                            let res = common::catch(std::panic::AssertUnwindSafe(|| call(&sh.lim, &tg)));
+                            let ta = clock.after();
+                            match res {
+                                Ok((ok, keys, by)) => log.push((tb, json!({"ev":"Req","tb":tb,"ta":ta,"ok":ok,"keys":keys,"by":by,"th":ti}))),
+                                Err(m) => log.push((tb, json!({"ev":"Panic","via":api,"msg":m}))),
+                            }
+                        }
                         let mut fresh = 100_000 * (ti as u32 + 1);
                         for _ in 0..per {
                             let tg = target(&mut r, &sh, pool, &mut fresh);
